@@ -95,6 +95,8 @@ class P:
             return ("tuple", ts)
         if self.accept("["):
             t = self.ty()
+            if self.accept("]"):
+                return ("slice", t)
             self.eat(";")
             n = self.next()[1]
             self.eat("]")
@@ -439,6 +441,14 @@ class Tr:
             if e[2] == "0" and t == "W64":
                 return b, a, "u64"
             raise Unsupported("field ." + e[2])
+        if k == "index":
+            b, a, t = self.ex(f, e[1], env)
+            if not (isinstance(t, tuple) and t[0] == "slice"):
+                raise Unsupported("index into a non-slice")
+            bi, ai, _ = self.ex(f, e[2], env, "usize")
+            f.impure = True
+            v = f.fresh()
+            return b + bi + ["do %s <- idx %s %s ;" % (v, paren(a), paren(ai))], v, t[1]
         if k == "macro":
             raise Unsupported("macro in expression: " + e[1])
         if k == "if":
@@ -605,12 +615,35 @@ class Tr:
             if isinstance(a, tuple) and a and a[0] == "__atom":
                 atoms.append(a[1])
                 continue
-            b, s, t = self.ex(f, a, env, pt if pt != ("mutref", "u64") else "u64")
+            b, s, t = self.ex(f, a, env, pt if not (isinstance(pt, tuple) and pt[0] == "mutref") else pt[1])
             bs += b
             atoms.append(paren(s))
         app = "%s %s" % (gname, " ".join(atoms))
         if mutidx:
-            raise Unsupported("call of a function with &mut parameters")
+            # callee returns (result, new values of its &mut parameters...)
+            f.impure = True
+            v = f.fresh()
+            outs, post = [], []
+            for k, (a, pt) in enumerate(zip(allargs, ptys)):
+                if k in mutidx:
+                    tgt = a
+                    while tgt[0] == "un" and tgt[1] in ("&", "*"):
+                        tgt = tgt[2]
+                    nv = f.fresh()
+                    outs.append(nv)
+                    if tgt[0] == "index" and tgt[1][0] == "var":
+                        bi, ai, _ = self.ex(f, tgt[2], env, "usize")
+                        if bi:
+                            raise Unsupported("computed index of a &mut element")
+                        nm = tgt[1][1]
+                        post.append("let %s := upd %s %s %s in" % (env[nm][0], env[nm][0], paren(ai), nv))
+                    elif tgt[0] == "var":
+                        post.append("let %s := %s in" % (env[tgt[1]][0], nv))
+                    else:
+                        raise Unsupported("&mut argument")
+            r = f.fresh()
+            pat = "(" + ", ".join([r] + outs) + ")"
+            return bs + ["do %s <- %s ; let '%s := %s in" % (v, app, pat, v)] + post, r, rty
         if pure:
             return bs, "(" + app + ")", rty
         f.impure = True
@@ -625,6 +658,8 @@ class Tr:
             v = f.fresh()
             return b + ["do %s <- tbl %s %s ;" % (v, env[recv[1]][0], paren(a))], v, env[recv[1]][1][1]
         br, ar, tr_ = self.ex(f, recv, env, want if m.startswith("wrapping_") else None)
+        if m == "len" and isinstance(tr_, tuple) and tr_[0] == "slice":
+            return br, "(lenZ %s)" % paren(ar), "usize"
         if m in ("wrapping_add", "wrapping_sub", "wrapping_mul"):
             b, a, t = self.ex(f, args[0], env, tr_)
             op = {"wrapping_add": "+", "wrapping_sub": "-", "wrapping_mul": "*"}[m]
@@ -753,6 +788,10 @@ class Tr:
                     b, a, _ = self.ex(f, e[2][0], env, "bool")
                     f.impure = True
                     return "%s if negb %s then DebugPanic else\n  %s" % (" ".join(b), paren(a), rest(env))
+                if e[1] == "assume":
+                    b, a, _ = self.ex(f, e[2][0], env, "bool")
+                    f.impure = True
+                    return "%s if negb %s then DebugPanic else\n  %s" % (" ".join(b), paren(a), rest(env))
                 if e[1] == "debug_assert_eq":
                     b1, a1, t1 = self.ex(f, e[2][0], env)
                     b2, a2, t2 = self.ex(f, e[2][1], env, t1)
@@ -794,6 +833,9 @@ class Tr:
                     return "%s do %s <- (if %s then (%s) else (%s)) ;\n  %s" % (" ".join(bc), vs[0], ac, s1, s2, rest(env))
                 return "%s do %s <- (if %s then (%s) else (%s)) ;\n  let '%s := %s in\n  %s" % (
                     " ".join(bc), w, ac, s1, s2, tup, w, rest(env))
+            if e[0] in ("call", "mcall"):            # value discarded
+                b, a, t = self.ex(f, e, env)
+                return "%s\n  %s" % (" ".join(b), rest(env))
             raise Unsupported("expression statement")
         raise Unsupported("statement " + k)
 
@@ -811,18 +853,20 @@ class Tr:
                 env[pn] = (pn, pt[1])
                 mutouts.append(pn)
                 ptys.append(pt[1])
+                pt = pt[1]
             else:
                 env[pn] = (pn, pt)
                 ptys.append(pt)
-            binders.append("(%s : %s)" % (pn, "bool" if pt == "bool" else "Z"))
+            binders.append("(%s : %s)" % (pn, "bool" if pt == "bool" else
+                                          "list Z" if (isinstance(pt, tuple) and pt[0] == "slice") else "Z"))
 
         def fin(env2):
             if body[2] is None:
-                b, a = [], "tt"
+                b, a = [], None
             else:
                 b, a, t = self.ex(f, body[2], env2, ret)
-            if mutouts:
-                a = "(" + ", ".join([a] + [env2[m][0] for m in mutouts]) + ")"
+            outs = ([a] if a is not None else []) + [env2[m][0] for m in mutouts]
+            a = "tt" if not outs else outs[0] if len(outs) == 1 else "(" + ", ".join(outs) + ")"
             return (" ".join(b) + " " if b else "") + "Val %s" % a
         code = self.stmts(f, body[1], 0, env, fin, ret)
         pure = not f.impure
@@ -833,7 +877,7 @@ class Tr:
         for tn, vals in f.tables:
             self.out.append("Definition %s : list Z := [%s]." % (tn, "; ".join(map(str, vals))))
         self.out.append("(* %s *)\nDefinition %s %s :=\n  %s." % (rname, gname, " ".join(binders), code.strip()))
-        self.sigs[rname] = (gname, ptys, ret, pure, bool(mutouts))
+        self.sigs[rname] = (gname, ptys, ret, pure, {i for i, (pn, _) in enumerate(params) if pn in mutouts})
         return pure
 
 
@@ -883,6 +927,10 @@ TARGETS = [
     ("src/algorithms/ops.rs", None, "adc", "adc", "g_adc", None),
     ("src/algorithms/ops.rs", None, "sbb", "sbb", "g_sbb", None),
     ("src/algorithms/mul.rs", None, "mac", "mac", "g_mac", None),
+    ("src/algorithms/mul.rs", None, "addmul_1", "addmul_1", "g_addmul_1", None),
+    ("src/algorithms/mul.rs", None, "addmul_2", "addmul_2", "g_addmul_2", None),
+    ("src/algorithms/mul.rs", None, "addmul_3", "addmul_3", "g_addmul_3", None),
+    ("src/algorithms/mul.rs", None, "addmul_4", "addmul_4", "g_addmul_4", None),
     ("src/algorithms/mul_redc.rs", None, "carrying_mul_add", "carrying_mul_add", "g_carrying_mul_add", None),
     ("src/algorithms/mul_redc.rs", None, "carrying_double_mul_add", "carrying_double_mul_add", "g_carrying_double_mul_add", None),
     ("src/algorithms/div/reciprocal.rs", None, "mul_hi", "mul_hi", "g_mul_hi", None),
